@@ -32,9 +32,9 @@ RULE = ('full product of the 8x8 (x-shape, y-shape) pairs (broadcastable or not)
         'broadcasts two different shapes, a rotation by a non-multiple of 360 deg acts on a non-empty '
         'coordinate, or a sky round trip acts on a non-empty coordinate')
 BOUNDS = {
-    'quick': '64 shape pairs x {float64, int64}; 45 index expressions; 8 partner shapes; 2 centres x 3 angles '
+    'quick': '64 shape pairs x {float64, int64}; 47 index expressions; 8 partner shapes; 2 centres x 3 angles '
              'x 2 representations, all 36 ordered pairs; 3 linear WCS + 1 SIP x origin {0,1} x mode {all,wcs}',
-    'thorough': '64 shape pairs x 6 input kinds; 45 index expressions; 8 partner shapes x 2 dtypes; 3 centres '
+    'thorough': '64 shape pairs x 6 input kinds; 47 index expressions; 8 partner shapes x 2 dtypes; 3 centres '
                 'x 6 angles x 4 representations, all 144 ordered pairs of 12 angle representations; 72 linear '
                 'WCS (3 proj x 3 rot x 2 scale x 2 frames x 2 crval) + 2 SIP x origin {0,1} x mode {all,wcs}',
 }
